@@ -433,3 +433,80 @@ def chaotic(rng):
         if rng.random() < 0.3:
             root[dk] = rng.choice([rng.randint(0, 10 ** 12), b"d4:infod", [[b"e"]], D([(b"x", 1)])])
     return enc(root)
+
+
+# ---- string adversaries: names and path components of awkward lengths and compositions ----
+BOUNDARIES = [0, 1, 2, 3, 7, 8, 15, 16, 17, 31, 32, 33, 47, 48, 49, 63, 64, 65, 100, 127, 128, 129, 255, 256, 257, 1000]
+MULTI = ["é", "€", "\U0001F600", "‮", "٦"]
+
+
+def string_adversaries(rng):
+    """Byte strings meant to shake out every slice / index / truncation on names and path
+    components: a multi-byte character straddling each boundary offset, with and without a
+    character that makes the string a non-plain (refused) component, control and invisible
+    characters, and invalid UTF-8."""
+    out = []
+    for b in BOUNDARIES:
+        for ch in MULTI:
+            enc_ch = ch.encode("utf-8")
+            for back in range(1, len(enc_ch)):
+                start = b - back                      # the character occupies [start, start+len): b falls inside it
+                if start < 0:
+                    continue
+                base = b"a" * start + enc_ch
+                out.append(base + b"tail")
+                out.append(base + b"/payload.bin")    # refused: contains '/'
+                out.append(base + b"\\x")
+        out.append(b"a" * b)
+        out.append(b"a" * b + b"/")
+        out.append(b"." * b)
+    out += [b"..", b".", b"", b"/", b"//", b"/abs", b"a/b", b"..\\..", b".\xe2\x80\xae.", b".\x7f.", b"\x00", b"a\x00b", b"nul\x00/x",
+            b"\xff", b"\xc3", b"a\xe2\x82", b"\xf0\x9f\x98", b"\x80abc", b"ok\xc3\xa9", b" ", b"~", b"-", b"con", b"a" * 5000]
+    rng.shuffle(out)
+    return out
+
+
+def string_documents(rng, limit=None):
+    """Loadable-shaped documents that put each string adversary in the name, name.utf-8, a path
+    component or a path.utf-8 component (single- and multi-file)."""
+    docs = []
+    advs = string_adversaries(rng)
+    for i, s in enumerate(advs if limit is None else advs[:limit]):
+        where = i % 6
+        info = {b"piece length": 4, b"pieces": b"\x07" * 20}
+        if where == 0:
+            info.update({b"name": s, b"length": 3})
+        elif where == 1:
+            info.update({b"name": b"plain", b"name.utf-8": s, b"length": 3})
+        elif where == 2:
+            info.update({b"name": b"n", b"files": [{b"length": 3, b"path": [b"d", s]}]})
+        elif where == 3:
+            info.update({b"name": b"n", b"files": [{b"length": 3, b"path": [s, b"f"]}]})
+        elif where == 4:
+            info.update({b"name": b"n", b"files": [{b"length": 1, b"path": [b"ok"]}, {b"length": 2, b"path": [b"x"], b"path.utf-8": [b"d", s]}]})
+        else:
+            info.update({b"name": s, b"files": [{b"length": 3, b"path": [s]}]})
+        docs.append(enc({b"info": info, b"comment": s[:40]}))
+    return docs
+
+
+def with_outer_copies(rng, d):
+    """Rebuilds document d with keys the loader knows placed at the WRONG level: a summary copy of
+    the info dictionary's own fields (same bytes, or a value of another type) next to 'info'.
+    Returns d unchanged when it is not a canonical dictionary with an info dictionary."""
+    import bengen
+    try:
+        root = ref_parse(d)
+    except Exception:
+        return d
+    if not (isinstance(root.v, dict) and b"info" in root.v and isinstance(root.v[b"info"].v, dict)):
+        return d
+    inner = root.v[b"info"].v
+    parts = {k: d[n.s:n.e] for k, n in root.v.items()}
+    for k in [b"name", b"name.utf-8", b"length", b"files", b"pieces", b"piece length", b"path", b"private"]:
+        if rng.random() < 0.55:
+            if k in inner and rng.random() < 0.8:
+                parts[k] = d[inner[k].s:inner[k].e]
+            else:
+                parts[k] = bengen.enc(rng.choice([b"x" * 20, 7, 16384, [], {}, b""]))
+    return b"d" + b"".join(bengen.enc(k) + parts[k] for k in sorted(parts)) + b"e"
